@@ -678,6 +678,78 @@ theorem write_sm_perm_partial (t0 : Rat) (cs : List BcSnap)
     rw [e h c rest w (B _ hb _ htb) hw, e h' c' rest' w' (B _ hb' _ htb') hw']
     exact hbp.map _
 
+/-- **SMMap.write (the rows of the chart) does not depend on the row order** of the tempo list and of the note lists:
+hypotheses of `write_sm_perm_partial`, plus what the property's quantifier grants per measure (`MeasureOk`: the lcm of the
+denominators fits the 384 cap, objects inside the grid, no two objects in one cell — then `cells_no_collision` makes the
+grid a function of the SET of cells). -/
+theorem write_sm_rows_perm (t0 : Rat) (cs : List BcSnap)
+    (hwf : wfChanges cs = true) (hs : sortedSnaps cs = true) (h0 : firstAtZero cs = true)
+    (hgc : gridCompatible (grid defaultMaxDiv) cs = true) (hm : metronomeOk cs = true)
+    (hM : ∀ c ∈ cs, c.met = 4) (hd : DistinctOffsets (tmOf t0 cs)) (c c' : WChart)
+    (hct : c'.chartType = c.chartType)
+    (hb : (tmOf t0 cs).Perm (toTimingMap c.bpms)) (hbp : c.bpms.Perm c'.bpms) (hn : c.notes.Perm c'.notes)
+    (hts : ∀ t ∈ (writeOrder c.notes).map (·.1), OnGridAt (grid defaultMaxDiv) t0 cs t)
+    (htb : ∀ t ∈ c.bpms.map (·.1), OnGridAt (grid defaultMaxDiv) t0 cs t)
+    (hok : ∀ keys s, getKeys c.chartType = some keys → smSlots c = .ok s →
+      ∀ m : Int, MeasureOk keys (s.filter (fun x => x.measure = m))) :
+    writeChartRows c = writeChartRows c' := by
+  obtain ⟨⟨s, s', e, e', hp⟩, _⟩ :=
+    write_sm_perm_partial t0 cs hwf hs h0 hgc hm hM hd c c' hb hbp hn hts htb
+  rw [writeChartRows_of_slots c s e, writeChartRows_of_slots c' s' e', hct]
+  cases hk : getKeys c.chartType with
+  | none =>
+    have : s.isEmpty = s'.isEmpty := by
+      cases s <;> cases s' <;> simp_all
+    simp only [this]
+  | some keys =>
+    simp only []
+    rw [measuresSorted_perm hp]
+    exact writeLoop_perm keys hp (hok keys s hk e) _ _
+
+/-- non-vacuity of `MeasureOk`: three objects of one 4-key measure on quarter and eighth positions, distinct cells -/
+example : MeasureOk 4 [⟨0, 0, 4, 0, '1'⟩, ⟨0, 1, 4, 2, '1'⟩, ⟨0, 1, 8, 1, '2'⟩] :=
+  ⟨by decide, by decide, by decide, by decide⟩
+
+/-- **SMMapSet.write**: the set written for a chart and for the same chart with its tempo rows and its notes in other
+row orders: the same measures (the rows of the chart, cell by cell), the same header lines, and the same multiset of
+`#BPMS` pairs — hence the same by-the-book denotation (the denotation sorts `#BPMS` by beat, `Spec/SM.changesOf`). -/
+theorem write_sm_perm (t0 : Rat) (cs : List BcSnap)
+    (hwf : wfChanges cs = true) (hs : sortedSnaps cs = true) (h0 : firstAtZero cs = true)
+    (hgc : gridCompatible (grid defaultMaxDiv) cs = true) (hm : metronomeOk cs = true)
+    (hM : ∀ c ∈ cs, c.met = 4) (hd : DistinctOffsets (tmOf t0 cs)) (c : WChart) (bpms' : List (Rat × Rat)) (notes' : List Note)
+    (hb : (tmOf t0 cs).Perm (toTimingMap c.bpms)) (hbp : c.bpms.Perm bpms') (hn : c.notes.Perm notes')
+    (hts : ∀ t ∈ (writeOrder c.notes).map (·.1), OnGridAt (grid defaultMaxDiv) t0 cs t)
+    (htb : ∀ t ∈ c.bpms.map (·.1), OnGridAt (grid defaultMaxDiv) t0 cs t)
+    (hok : ∀ keys s, getKeys c.chartType = some keys → smSlots c = .ok s →
+      ∀ m : Int, MeasureOk keys (s.filter (fun x => x.measure = m)))
+    (h : WHeader) (w : Written) (hw : SM.write h [c] = .ok w) :
+    ∃ w', SM.write h [{ c with bpms := bpms', notes := notes' }] = .ok w' ∧ w'.charts = w.charts ∧ w'.bpms.Perm w.bpms ∧
+      w'.strs = w.strs ∧ w'.offsetSec = w.offsetSec ∧ w'.sampleStartSec = w.sampleStartSec ∧
+      w'.sampleLengthSec = w.sampleLengthSec ∧ w'.selectable = w.selectable := by
+  have hrows := write_sm_rows_perm t0 cs hwf hs h0 hgc hm hM hd c { c with bpms := bpms', notes := notes' } rfl hb hbp hn
+    hts htb hok
+  have hg : defaultGrid.toList = grid defaultMaxDiv := by simp [defaultGrid]
+  have B : ∀ (tm' : List BcOff), (tmOf t0 cs).Perm tm' → ∀ ts : List Rat,
+      (∀ t ∈ ts, OnGridAt (grid defaultMaxDiv) t0 cs t) → beats defaultGrid tm' ts = .ok (ts.map (beatAt t0 cs)) :=
+    fun tm' hp ts ht => beats_any_order defaultGrid (gridOK_grid (by decide)) t0 cs hwf hs h0 (by rw [hg]; exact hgc) hm 4 hM
+      tm' hp hd ts (by rw [hg]; exact ht)
+  have htb' : ∀ t ∈ bpms'.map (·.1), OnGridAt (grid defaultMaxDiv) t0 cs t :=
+    fun t ht => htb t ((hbp.map _).mem_iff.mpr ht)
+  have b1 := B (toTimingMap c.bpms) hb _ htb
+  have b2 : beats defaultGrid (toTimingMap bpms') (bpms'.map (·.1)) = .ok ((bpms'.map (·.1)).map (beatAt t0 cs)) :=
+    B (toTimingMap bpms') (hb.trans (hbp.map _)) _ htb'
+  unfold SM.write at hw ⊢
+  simp only [b1, b2, bind, Except.bind, mapE] at hw ⊢
+  rw [← hrows]
+  cases hr : writeChartRows c with
+  | error e => simp [hr] at hw
+  | ok rows =>
+    simp only [hr, Except.ok.injEq] at hw ⊢
+    subst hw
+    refine ⟨_, rfl, rfl, ?_, rfl, rfl, rfl, rfl, rfl⟩
+    simp only [List.map_map, zip_map_self]
+    exact (hbp.map _).symm
+
 end SMWriter
 
 /-! ## the Quaver writer -/
